@@ -6,7 +6,13 @@ Relations
            exhaustion, malformed sample lists)
   norep  : output_vcf(no_replacement=True) end to end on panels in which every reference haplotype
            carries a unique allele at every variant (provenance readable from the output), with
-           np.random.shuffle recorded; exhaustion of the panel must raise
+           np.random.shuffle recorded; exhaustion of the panel must raise.  45% of the sample-info files have
+           OVERLAPPING populations (overlap_rows: a reference sample listed under two or three of the model's
+           populations, all samples of one population also in another, all populations listing the same pool,
+           pools of one or two samples that run out, a line twice).  Width-boundary stream: wide panels whose
+           chosen samples sit in columns >= 128 / 256 (C03's gen_wide_case; SAMPLE written, holds_norep_smp reads
+           the provenance from SAMPLE + allele), 254..300 tracts on a chromosome (> 255 intervals registered on a
+           reference haplotype), 254..300 source populations (labels 253..255 used; a label >= 256 -> OverflowError)
   params : validate_params with --no_replacement on panels with n-1 / n / n+1 sample-info lines per model
            population (first / middle / last in the header), population labels in every string relation to one
            another (one a proper prefix / suffix / infix of another, case-only difference, common prefix or suffix,
@@ -16,7 +22,10 @@ Relations
   cli    : the simgenotype command end to end with --no_replacement on such panels (identifiable alleles):
            a short population must stop the command in validate_params before simulate_gt is entered and before
            any file exists; otherwise the output_vcf call it makes (breakpoints as handed over, shuffles
-           recorded) is checked against C03's model and the no-reuse checker
+           recorded) is checked against C03's model and the no-reuse checker; 45% of the sample-info files have
+           overlapping populations
+  (params: 30% of the files list a sample name under two or three labels, or a line twice: a line counts for the
+           label it carries)
 """
 import itertools
 import os
@@ -28,7 +37,7 @@ from .core import Relation, err_kind
 
 PROP = "C14"
 CLAIMED = True
-COQ_MODULES = ["C14_Check", "C14_Proofs", "C14_CheckVcf", "C14_ProofsVcf", "C14_CheckConv"]
+COQ_MODULES = ["C14_Check", "C14_Proofs", "C14_CheckVcf", "C14_ProofsVcf", "C14_CheckConv", "C14_Run", "C14_RunVcf"]
 PROPERTY_MODULE = "C14_Property"
 ALLOWED_AXIOMS = []
 
@@ -60,10 +69,15 @@ TRANSLATION = {
 }
 RULE = (
     "kernel: 1-12 calls on a table of 1-4 reference samples, interval ends from a 12-point grid so that equal, "
-    "nested, overlapping and abutting (shared end point, end+1) intervals are frequent; non-trivial = some call "
+    "nested, overlapping and abutting (shared end point, end+1) intervals are frequent, plus one history per run that "
+    "registers 254-300 disjoint intervals on one reference haplotype in random order and probes the ones registered "
+    "254th-257th; non-trivial = some call "
     "meets a registered interval of the same chromosome on a probed reference haplotype. norep: output_vcf with "
-    "no_replacement on identifiable panels; non-trivial = two simulated haplotypes carry blocks of the same "
-    "population on the same chromosome whose intervals share a position. params: 2-4 model populations x 0-3 unused "
+    "no_replacement on identifiable panels, 45% with overlapping populations (a reference sample under 2-3 model "
+    "populations, subset, common pool, exhausted pool, a line twice), plus per run: wide panels (129-140, 257-300 samples, "
+    "chosen columns >= 128 / 256), 254-300 tracts on a chromosome, 254-300 source populations; non-trivial = two simulated "
+    "haplotypes carry blocks of the same population - or of two populations that list a common reference sample - on the "
+    "same chromosome whose intervals share a position. params: 2-4 model populations x 0-3 unused "
     "ones, labels derived from one another by 14 string relations, 1-4 simulated samples, counts n-1/n/n+1; non-trivial "
     "= --no_replacement, some model population has n-1 or n lines and some other label of the file stands in a "
     "containment / case / shared-affix relation to a model label. cli: the command on 2-3 populations, 1-3 samples, 1-2 "
@@ -162,7 +176,39 @@ class Kernel(Relation):
                         samples.insert(int(rng.integers(0, len(samples) + 1)), int(rng.choice([-1, ns, ns + 1])))
                     ops.append({"k": "sample", "samples": [int(s) for s in samples], "c": c, "a": a, "b": b})
             out.append({"ns": ns, "ops": ops, "kind": "malformed" if malformed else "wellformed"})
+        # width-boundary stream: more than 255 intervals registered on ONE reference haplotype
+        out += [self.many_intervals(rng) for _ in range(max(1, n // 2000) if tier == "quick" else 6)]
         return out
+
+    def many_intervals(self, rng):
+        """254..300 pairwise disjoint intervals [10i, 10i+5] registered on reference haplotype 0 in a random (not left to
+        right) order, then probes that overlap the interval registered 254th .. 257th / last (nested, shared end point,
+        containing), probes in the gaps, and the same probes again (strand 1 is taken by then)"""
+        ns = int(rng.integers(1, 3))
+        m = int(rng.choice([254, 255, 256, 257, int(rng.integers(258, 301))]))
+        c = int(rng.choice([1, 2, 23]))
+        order = [int(x) for x in rng.permutation(m)]
+        ops = []
+        for i in order:
+            if rng.random() < 0.5:
+                ops.append({"k": "coord", "hap": 0, "c": c, "a": 10 * i, "b": 10 * i + 5})
+            else:
+                ops.append({"k": "sample", "samples": [0], "c": c, "a": 10 * i, "b": 10 * i + 5})
+        probes = []
+        for j in sorted(set([253, 254, 255, 256, m - 1, int(rng.integers(0, m))])):
+            if j >= m:
+                continue
+            i = order[j]
+            kind = int(rng.integers(0, 4))
+            a, b = [(10 * i + 1, 10 * i + 2), (10 * i + 5, 10 * i + 8), (10 * i - 2, 10 * i + 7), (10 * i + 6, 10 * i + 9)][kind]
+            probes.append((max(0, a), b))
+        for a, b in probes + probes[:3]:
+            r = rng.random()
+            if r < 0.35:
+                ops.append({"k": "coord", "hap": 0, "c": c, "a": a, "b": b})
+            else:
+                ops.append({"k": "sample", "samples": [int(x) for x in rng.permutation(ns)], "c": c, "a": a, "b": b})
+        return {"ns": ns, "ops": ops, "kind": "many-intervals"}
 
     def exhaustive(self, tier):
         # one reference sample (two haplotypes), one chromosome: every pair and triple of intervals over a 5-point grid
@@ -241,7 +287,9 @@ class Kernel(Relation):
         return bool(self._relations(inp) - {"apart"})
 
     def classes(self, inp, obs):
-        out = [inp["kind"], f"ops~{len(inp['ops']) // 4 * 4}"] + sorted(self._relations(inp))
+        out = [inp["kind"], f"ops~{min(len(inp['ops']) // 4 * 4, 16)}"] + sorted(self._relations(inp))
+        if isinstance(obs, dict) and max([len(u) for u in obs.get("final", [])] + [0]) > 255:
+            out.append("more-than-255-intervals-on-a-reference-haplotype")
         if isinstance(obs, dict) and "res" in obs:
             for r in obs["res"]:
                 if "err" in r:
@@ -358,15 +406,229 @@ def shuffle_draws(rec, nref):
     }
 
 
+# ---- sample-info files whose populations overlap ---------------------------------------------
+# A reference sample may be listed under two or three of the model's source populations (overlapping
+# groupings).  validate_params accepts such a file (it counts lines per label), output_vcf puts the sample into
+# each population's list, and the bookkeeping of used stretches hangs on the reference haplotype (VCF column x
+# strand), so a stretch copied for a block of population A is seen when a block of population B asks for it.
+
+OVERLAP_MODES = ["one-shared", "subset", "all-share", "added", "pool", "pool-exhausted", "duplicate-line"]
+
+
+def overlap_rows(rng, rows, model_labs, mode, fresh=None):
+    """rows: sample-info lines [[sample, label]] (any hashable ids).  Returns new lines in which some reference
+    samples are listed under several labels of model_labs:
+      one-shared     : one sample of a population A is also THE sample of one line of another population B
+      subset         : the lines of B take (distinct) samples of A - all samples of B also belong to A (|B| <= |A|),
+                       or all samples of A also belong to B
+      all-share      : as subset, for every other model population (samples under two or three populations)
+      added          : further lines: samples of A listed under B as well (B's count grows)
+      pool           : every model population lists the same m samples (m = the largest count any had)
+      pool-exhausted : every model population lists the same ONE or TWO samples (the panel runs out)
+      duplicate-line : a line of the file occurs twice (same sample, same population)
+    Line counts per label are kept by one-shared / subset / all-share."""
+    rows = [list(x) for x in rows]
+    by = {}
+    for i, (s_, lab) in enumerate(rows):
+        if lab in model_labs and not (isinstance(s_, int) and s_ < 0):
+            by.setdefault(lab, []).append(i)
+    labs = [lab for lab in model_labs if by.get(lab)]
+    if not labs:
+        return rows
+    if mode == "duplicate-line":
+        i = int(rng.integers(0, len(rows)))
+        rows.insert(int(rng.integers(0, len(rows) + 1)), list(rows[i]))
+        return rows
+    a = labs[int(rng.integers(0, len(labs)))]
+    a_samples = list(dict.fromkeys(rows[i][0] for i in by[a]))
+    others = [lab for lab in labs if lab != a]
+    if mode in ("pool", "pool-exhausted"):
+        if mode == "pool":
+            m = max(len(by[lab]) for lab in labs)
+        else:
+            m = int(rng.integers(1, 3))
+        pool = list(a_samples)
+        for lab in others:
+            for i in by[lab]:
+                if rows[i][0] not in pool:
+                    pool.append(rows[i][0])
+        pool = pool[:m]
+        keep = [x for i, x in enumerate(rows) if x[1] not in labs]
+        new = [[s_, lab] for lab in labs for s_ in pool]
+        out = keep + new
+        return [out[i] for i in rng.permutation(len(out))]
+    if not others:
+        return rows
+    if mode == "added":
+        b = others[int(rng.integers(0, len(others)))]
+        have = set(rows[i][0] for i in by[b])
+        cand = [s_ for s_ in a_samples if s_ not in have]
+        for s_ in cand[:int(rng.integers(1, len(cand) + 1))] if cand else []:
+            rows.insert(int(rng.integers(0, len(rows) + 1)), [s_, b])
+        return rows
+    targets = others if mode == "all-share" else [others[int(rng.integers(0, len(others)))]]
+    for b in targets:
+        have = set(rows[i][0] for i in by[b])
+        src = [s_ for s_ in a_samples if s_ not in have]
+        idxs = list(by[b])
+        if mode == "one-shared":
+            idxs = [idxs[int(rng.integers(0, len(idxs)))]]
+        for i, s_ in zip(idxs, src):
+            rows[i][0] = s_
+    return rows
+
+
+def sharing(rows, model_labs):
+    """semantic description of the overlap in a sample-info table (computed, not the generator's mode)"""
+    pops_of = {}
+    members = {lab: set() for lab in model_labs}
+    dup = False
+    seen = set()
+    for s_, lab in rows:
+        if lab in members and not (isinstance(s_, int) and s_ < 0):
+            if (s_, lab) in seen:
+                dup = True
+            seen.add((s_, lab))
+            pops_of.setdefault(s_, set()).add(lab)
+            members[lab].add(s_)
+    out = set()
+    k = max([len(v) for v in pops_of.values()] + [0])
+    if k >= 2:
+        out.add("sample-under-%d-populations" % min(k, 3))
+    labs = [lab for lab in model_labs if members[lab]]
+    for i, x in enumerate(labs):
+        for y in labs[i + 1:]:
+            if members[x] == members[y]:
+                out.add("two-populations-list-the-same-samples")
+            elif members[x] <= members[y] or members[y] <= members[x]:
+                out.add("all-samples-of-a-population-also-in-another")
+            elif members[x] & members[y]:
+                out.add("populations-partly-overlap")
+    if dup:
+        out.add("line-twice")
+    return out
+
+
+def shared_pairs(rows, model_labs):
+    """pairs of model labels that have a reference sample in common (incl. each label with itself)"""
+    members = {}
+    for s_, lab in rows:
+        if lab in model_labs:
+            members.setdefault(lab, set()).add(s_)
+    return {(x, y) for x in members for y in members if x == y or members[x] & members[y]}
+
+
+def gen_overlap_norep(rng, tier, mode=None):
+    """an output_vcf(no_replacement) case of C03's generator whose sample-info file lists reference samples under
+    several of the model's populations; panels identifiable, so the no-reuse checker decides from the output"""
+    from . import c03
+
+    while True:
+        c = c03.gen_case(rng, tier, want_norep=True)
+        if not c03.covered(c):
+            continue
+        if c["npop"] < 3 and rng.random() < 0.85:
+            continue                      # one source population cannot overlap with another
+        mode = mode or str(rng.choice(OVERLAP_MODES, p=[0.2, 0.2, 0.2, 0.1, 0.12, 0.12, 0.06]))
+        c["info"] = [[int(a), int(b)] for a, b in overlap_rows(rng, c["info"], list(range(1, c["npop"])), mode)]
+        c["overlap"] = mode
+        return c
+
+
+def gen_wide_norep(rng, tier, wclass):
+    """C03's wide panel (129.. / 257.. / 65537.. reference samples, the model populations' samples in the HIGH columns)
+    with no_replacement and the SAMPLE field written, so that holds_norep_smp reads the provenance"""
+    from . import c03
+
+    c = None
+    for _ in range(40):
+        c = c03.gen_wide_case(rng, tier, wclass)
+        if c["norep"] and c03.covered(c):
+            break
+    c["norep"] = True
+    c["sample_field"] = True
+    if rng.random() < 0.4:
+        c["info"] = [[int(a), int(b)] for a, b in overlap_rows(rng, c["info"], list(range(1, c["npop"])), "all-share")]
+        c["overlap"] = "all-share"
+    return c
+
+
+def gen_many_populations(rng, tier, overflow=False):
+    """254..300 source populations in the model header (hap_pops and the POP arrays are uint8).  A few reference samples
+    serve all of them (overlapping populations), the blocks use the labels 253..255 (and small ones); with overflow a
+    label 256.. (which np.asarray(.., dtype=np.uint8) refuses with OverflowError under numpy >= 2)."""
+    from . import c03
+
+    k = int(rng.choice([254, 255, 256, 257, int(rng.integers(258, 301))]))
+    if overflow:
+        k = max(k, 257)
+    nref = int(rng.integers(3, 6))
+    npop = k + 1
+    info = [[int(rng.integers(0, nref)), p] for p in range(1, npop)]
+    hot = [p for p in (1, 2, 127, 128, 253, 254, 255) if p <= k]
+    for p in hot:                                   # the populations the blocks use list two or three samples
+        have = {s_ for s_, q in info if q == p}
+        for s_ in rng.permutation(nref)[:2]:
+            if int(s_) not in have:
+                info.append([int(s_), p])
+    info = [info[i] for i in rng.permutation(len(info))]
+    c = int(rng.choice([1, 2, 10]))
+    pos = sorted(set(int(x) for x in rng.choice([5, 10, 20, 30, 40], size=3)))
+    vars_ = [[False, c, p] for p in pos]
+    data = [[None] * len(vars_) for _ in range(nref)]
+    for vi in range(len(vars_)):
+        sh = int(rng.integers(0, 2 * nref))
+        for rr in range(nref):
+            data[rr][vi] = [(2 * rr + sh) % (2 * nref), (2 * rr + 1 + sh) % (2 * nref)]
+    bps = []
+    for h in range(2):
+        ends = sorted(set(int(x) for x in rng.choice([p + d for p in pos for d in (-1, 0, 1)], size=int(rng.integers(0, 3)))))
+        hap = [[int(rng.choice(hot)), c, int(e), 0] for e in ends + [c03.MAXI]]
+        bps.append(hap)
+    if overflow:
+        big = [p for p in (256, 257, k) if p <= k]
+        h = int(rng.integers(0, 2))
+        j = int(rng.integers(0, len(bps[h])))
+        bps[h][j][0] = int(rng.choice(big))
+    return {
+        "chroms": [c], "npop": npop, "info": info,
+        "ref": {"nref": nref, "vars": vars_, "nalleles": [2 * nref] * len(vars_), "data": data, "fmt": "vcf.gz"},
+        "bps": bps, "region": None, "pop_field": bool(rng.random() < 0.8), "sample_field": bool(rng.random() < 0.5),
+        "norep": True, "out": str(rng.choice(["vcf.gz", "vcf", "bcf"])), "seed": int(rng.integers(1, 2**31 - 1)),
+        "kind": "wellformed", "boundary": "label>255" if overflow else "many-populations",
+    }
+
+
+def gen_many_blocks_norep(rng, tier):
+    """C03's width-boundary case with 254..300 tracts on one chromosome, run with no_replacement: a reference haplotype
+    collects more than 255 registered intervals, and the second simulated haplotype has to be fitted between them"""
+    from . import c03
+
+    c = c03.gen_boundary_case(rng, tier, "many-blocks")
+    c["norep"] = True
+    c["sample_field"] = True
+    c["boundary"] = "many-blocks"
+    if rng.random() < 0.7:
+        # one reference sample per population and (mostly) one population: all intervals of the first simulated haplotype
+        # pile up on ONE reference haplotype, the second simulated haplotype has to take the sample's other strand
+        k = c["npop"] - 1
+        perm = [int(x) for x in rng.permutation(c["ref"]["nref"])]
+        c["info"] = [[perm[p - 1], p] for p in range(1, k + 1)] + [[s_, c["npop"]] for s_ in perm[k:k + 1]]
+        if rng.random() < 0.7:
+            c["bps"] = [[[1, t[1], t[2], t[3]] for t in hap] for hap in c["bps"]]
+    return c
+
+
 class Norep(Relation):
-    """output_vcf(no_replacement=True) end to end; case type, runner and model are C03's."""
+    """output_vcf(no_replacement=True) end to end; case type and runner are C03's, the model is C03's wrapped
+    with numpy's uint8 range check for population labels (C14_CheckVcf.output_vcf_w)."""
     name = "norep"
     coq_module = "C14_CheckVcf"
     coq_check = "check_norep"
     coq_case_type = "ocase"
     coq_model = "model_norep"
     coq_imports = ["Tracts", "C01_Model", "C14_Model", "C03_Model", "C03_Check"]
-    budget = {"quick": 160, "thorough": 3000}
+    budget = {"quick": 300, "thorough": 3000}
     max_cases_per_shard = 40
     anchors = [
         ("haptools/sim_genotype.py", "output_vcf"),
@@ -383,12 +645,26 @@ class Norep(Relation):
 
         out = []
         while len(out) < n:
-            c = c03.gen_case(rng, tier, want_norep=True)
+            if rng.random() < 0.45:
+                c = gen_overlap_norep(rng, tier)
+            else:
+                c = c03.gen_case(rng, tier, want_norep=True)
             if c03.covered(c):
                 # population labels in every string relation to one another (nested, case, digits ...);
                 # the last one labels the sample-info lines of the unused population
                 c["labels"], _ = gen_labels(rng, c["npop"] - 1, 1)
                 out.append(c)
+        # width-boundary stream: wide panels (chosen samples in columns >= 128 / 256), > 255 registered intervals on a
+        # reference haplotype, 254..300 source populations (labels around 255 | 256)
+        k = max(1, n // 600)
+        extra = [gen_wide_norep(rng, tier, "w256") for _ in range(k)]
+        extra += [gen_wide_norep(rng, tier, "w128") for _ in range(k)]
+        extra += [gen_many_blocks_norep(rng, tier) for _ in range(k)]
+        extra += [gen_many_populations(rng, tier) for _ in range(k)]
+        extra += [gen_many_populations(rng, tier, overflow=True) for _ in range(k)]
+        if tier == "thorough":
+            extra += [gen_wide_norep(rng, tier, "w65536")]
+        out += [c for c in extra if c03.covered(c)]
         return out
 
     def run_impl(self, inp):
@@ -404,7 +680,9 @@ class Norep(Relation):
 
     @staticmethod
     def _contended(inp):
-        """two simulated haplotypes hold blocks of one population on one chromosome whose intervals share a position"""
+        """two simulated haplotypes hold blocks of one population - or of two populations that list a common
+        reference sample - on one chromosome whose intervals share a position"""
+        pairs = shared_pairs(inp["info"], set(range(1, inp["npop"])))
         blocks = []
         for h, hap in enumerate(inp["bps"]):
             for c in inp["chroms"]:
@@ -415,41 +693,108 @@ class Norep(Relation):
                         prev = t[2]
         for i, (h, c, p, a, b) in enumerate(blocks):
             for h2, c2, p2, a2, b2 in blocks[:i]:
-                if h != h2 and (c, p) == (c2, p2) and max(a, a2) <= min(b, b2):
-                    return True
+                if h != h2 and c == c2 and (p, p2) in pairs and max(a, a2) <= min(b, b2):
+                    return "same" if p == p2 else "shared"
         return False
 
     def nontrivial(self, inp, obs):
-        return inp["kind"] == "wellformed" and self._contended(inp)
+        return inp["kind"] == "wellformed" and bool(self._contended(inp))
 
     def classes(self, inp, obs):
         out = [inp["kind"], "ref=" + inp["ref"]["fmt"], "out=" + inp["out"]]
         if self._contended(inp):
             out.append("haplotypes-compete-for-a-population")
+        out += sorted(sharing(inp["info"], set(range(1, inp["npop"]))))
+        if self._shared_contention(inp):
+            out.append("blocks-of-two-populations-compete-for-a-shared-sample")
+        if inp.get("wide"):
+            top = max([s_ for s_, p_ in inp["info"] if p_ < inp["npop"]] + [0])
+            out.append("wide-panel-%s-chosen-column>=%d" % (inp["wide"], 65536 if top >= 65536 else 256 if top >= 256 else 128 if top >= 128 else 0))
+        if inp.get("boundary"):
+            out.append("boundary-" + inp["boundary"])
+            if max([len(hap) for hap in inp["bps"]] + [0]) > 255:
+                out.append("more-than-255-intervals-to-register")
+            if inp["npop"] > 256:
+                out.append("more-than-255-source-populations")
         if isinstance(obs, dict) and "failed" in obs:
             out.append(f"raised-{obs['failed'].get('cls')}")
         elif isinstance(obs, dict) and "out" in obs:
             out.append("completed")
         return out
 
+    @staticmethod
+    def _shared_contention(inp):
+        """blocks of two DIFFERENT populations that list a common reference sample overlap on a chromosome"""
+        pairs = shared_pairs(inp["info"], set(range(1, inp["npop"])))
+        blocks = []
+        for h, hap in enumerate(inp["bps"]):
+            for c in inp["chroms"]:
+                prev = -1
+                for t in hap:
+                    if t[1] == c:
+                        blocks.append((h, c, t[0], prev + 1, t[2]))
+                        prev = t[2]
+        for i, (h, c, p, a, b) in enumerate(blocks):
+            for h2, c2, p2, a2, b2 in blocks[:i]:
+                if c == c2 and p != p2 and (p, p2) in pairs and max(a, a2) <= min(b, b2):
+                    return True
+        return False
+
     def shrink(self, inp):
         from . import c03
 
         yield from c03.Vcf().shrink(inp)
+        info = inp["info"]
+        if not inp.get("wide") and not inp.get("boundary"):
+            for j in range(len(info) if len(info) > 1 else 0):
+                yield dict(inp, info=info[:j] + info[j + 1:])
+        if inp.get("labels"):
+            yield dict(inp, labels=None)
+        # drop the highest reference sample when nothing lists it
+        ref = inp["ref"]
+        top = max([s_ for s_, _p in info] + [1]) + 1
+        if top < ref["nref"] and "data" in ref:
+            yield dict(inp, ref=dict(ref, nref=top, data=ref["data"][:top]))
 
     def mutate(self, inp, rng):
         for _ in range(6):
             yield dict(inp, seed=int(rng.integers(1, 2**31 - 1)))
+        # the same panel with reference samples listed under several populations
+        if not inp.get("wide") and not inp.get("boundary"):
+            for mode in ("all-share", "pool-exhausted", "subset"):
+                rows = overlap_rows(rng, inp["info"], list(range(1, inp["npop"])), mode)
+                yield dict(inp, info=[[int(a), int(b)] for a, b in rows], seed=int(rng.integers(1, 2**31 - 1)))
+
+    @staticmethod
+    def _dup_provenance(inp, o):
+        """(by alleles over an identifiable panel, by SAMPLE + allele)"""
+        data = None
+        by_allele = by_sample = False
+        for j in range(len(o["vars"])):
+            col = [row[j] for row in o["gt"]]
+            if len(set(col)) < len(col):
+                by_allele = True
+            if o.get("smp"):
+                if data is None:
+                    from . import c03
+                    data = c03.ref_data(inp["ref"])
+                keys = []
+                for h, row in enumerate(o["gt"]):
+                    s_ = o["smp"][h][j]
+                    v = o["vars"][j]
+                    if s_ is not None and 0 <= s_ < len(data) and 0 <= v < len(data[s_]):
+                        a0, a1 = data[s_][v]
+                        if a0 != a1 and row[j] in (a0, a1):
+                            keys.append((s_, row[j]))
+                if len(set(keys)) < len(keys):
+                    by_sample = True
+        return by_allele, by_sample
 
     def signature(self, inp, obs):
         if not isinstance(obs, dict) or "out" not in obs:
             return "norep output_vcf did not complete / not observed"
-        o = obs["out"]
-        dup = False
-        for j in range(len(o["vars"])):
-            col = [row[j] for row in o["gt"]]
-            if len(set(col)) < len(col):
-                dup = True
+        by_allele, by_sample = self._dup_provenance(inp, obs["out"])
+        dup = by_allele or by_sample
         return "norep " + ("one reference haplotype copied into two simulated haplotypes at a variant" if dup
                            else "no duplicate provenance (model disagreement)")
 
@@ -711,6 +1056,11 @@ class Params(Relation):
             info = [info[i] for i in rng.permutation(len(info))]
         elif order < 0.75:
             info = info[::-1]
+        if rng.random() < 0.3:
+            # overlapping populations: the same sample name under two or three labels (a line counts for the label it
+            # carries, whatever other lines name the same sample), or a line twice
+            mode = str(rng.choice(["one-shared", "subset", "all-share", "added", "pool", "pool-exhausted", "duplicate-line"]))
+            info = [[str(a), str(b)] for a, b in overlap_rows(rng, info, pops, mode)]
         panel = [names[i] for i in rng.permutation(len(names))] if rng.random() < 0.7 else list(names)
         kind = "wellformed"
         m = rng.random()
@@ -835,6 +1185,7 @@ class Params(Relation):
         labs = set(lab for _, lab in inp["info"])
         if any(nm in labs or any(p in nm for p in inp["pops"]) for nm, _ in inp["info"]):
             out.append("sample-name-contains-a-label")
+        out += sorted(sharing(inp["info"], set(inp["pops"])))
         if isinstance(obs, dict) and "cls" in obs:
             out.append(f"verdict-{obs['cls']}")
         return out
@@ -901,7 +1252,7 @@ class Cli(Relation):
     coq_case_type = "ccase"
     coq_model = "model_cli"
     coq_imports = ["Tracts", "C01_Model", "C14_Model", "C03_Model", "C03_Check"]
-    budget = {"quick": 120, "thorough": 2000}
+    budget = {"quick": 160, "thorough": 2000}
     max_cases_per_shard = 30
     anchors = [
         ("haptools/sim_genotype.py", "validate_params"),
@@ -934,6 +1285,12 @@ class Cli(Relation):
         info = [[perm[i], lab] for i, lab in enumerate(own)]
         if r() < 0.7:
             info = [info[i] for i in rng.permutation(len(info))]
+        overlap = None
+        if r() < 0.45:
+            # overlapping populations: reference samples listed under two or three of the model's populations
+            overlap = str(rng.choice(["one-shared", "subset", "all-share", "added", "pool", "pool-exhausted"],
+                                     p=[0.2, 0.25, 0.25, 0.1, 0.15, 0.05]))
+            info = [[int(a), b] for a, b in overlap_rows(rng, info, labels[:k], overlap)]
         nchr = int(rng.choice([1, 1, 2]))
         chroms = sorted(int(c) for c in rng.choice([1, 2, 10, 22], size=nchr, replace=False))
         maps, vars_ = {}, []
@@ -969,7 +1326,7 @@ class Cli(Relation):
                     "fmt": str(rng.choice(["vcf.gz", "vcf.gz", "bcf", "pgen"], p=[0.4, 0.3, 0.2, 0.1]))},
             "seed": int(rng.integers(1, 2**31 - 1)), "popsize": int(rng.choice([2, 10, 25])),
             "pop_field": bool(r() < 0.5), "sample_field": bool(r() < 0.5), "out": str(rng.choice(["vcf.gz", "vcf", "bcf"])),
-            "kinds": sorted(set(kinds) - {"base"}), "kind": "wellformed",
+            "kinds": sorted(set(kinds) - {"base"}), "kind": "wellformed", "overlap": overlap,
         }
 
     def generate(self, rng, n, tier):
@@ -1113,6 +1470,7 @@ class Cli(Relation):
             out += ["short-population-" + w for w in sorted(deficient_positions(inp["ns"], inp["pops"], rows))]
             if covered_by_containing_label(inp["ns"], inp["pops"], rows):
                 out.append("short-but-containing-labels-suffice")
+        out += sorted(sharing(rows, set(inp["pops"])))
         if isinstance(obs, dict) and "sim" in obs:
             out.append(f"verdict-{(obs.get('val') or {}).get('cls')}")
             if obs["sim"]:
@@ -1166,6 +1524,9 @@ class Cli(Relation):
             if len(lines) >= inp["ns"]:
                 drop = set(x[0] for x in lines[inp["ns"] - 1:])
                 yield dict(inp, norep=True, info=[x for x in inp["info"] if x[0] not in drop])
+        for mode in ("all-share", "pool", "subset"):
+            yield dict(inp, norep=True, seed=int(rng.integers(1, 2**31 - 1)),
+                       info=[[int(a), b] for a, b in overlap_rows(rng, inp["info"], list(inp["pops"]), mode)])
 
     def signature(self, inp, obs):
         if not isinstance(obs, dict) or "sim" not in obs:
